@@ -8,7 +8,8 @@ C18 line-protocol driver.
   http2 <bodyTmpl> <s|l> <varTmpl> <X-In1> <q1> <X-In2> <q2> <secret>   two requests through the SAME vars+respond handler instances
   httpm <key> <matchVal> <varV> <X-In> <q> <secret>   vars matcher result + vars_regexp capture group 1
   httprw <uriTmpl> <path> <rawQuery> <secret>   the URI part of the rewrite handler: Path, RawQuery, Fragment afterwards
-  cost  <mode> <n> <mult>          timing witness (answer is the constant `cost`)
+  cost  <mode> <n> <mult>          timing case '{'^n+'}' at n and mult·n (answer is the constant `cost`); mode ∈ all|known|orerr|orkeep
+  costf <mode> <n> <mult> <unit> <tail>   the same for unit^n+tail
 env = `.` or `k:v;k:v;…` (hex fields).  Answers: `ok <hex>` | `err:<class>` | `panic`.
 -/
 import CaddyModel.C18.Model
@@ -45,6 +46,9 @@ def showRes : Res → String
   | .funcErr => "err:func"
   | .panic => "panic"
   | .fuel => "model-out-of-fuel"
+
+/-- modes of the timing cases (orerr = ReplaceOrErr(false, true), orkeep = ReplaceOrErr(false, false)) -/
+def costModes : List String := ["all", "known", "orerr", "orkeep"]
 
 def handle : List String → String
   | ["all", inp, empty, env] =>
@@ -96,8 +100,8 @@ def handle : List String → String
       | some o => "ok " ++ Hex.encode o.path ++ " " ++ Hex.encode o.rawQuery ++ " " ++ Hex.encode o.frag
       | none => "panic"
     | _, _, _, _ => "bad-op"
-  | ["cost", _, _, _] => "cost"
-  | ["costf", _, _, _, _, _] => "cost"
+  | ["cost", mode, _, _] => if costModes.contains mode then "cost" else "bad-op"
+  | ["costf", mode, _, _, _, _] => if costModes.contains mode then "cost" else "bad-op"
   | ["zoo", _, _, _] => "zoo"      -- oracle-only stream (real provisioned server); nothing to model
   | _ => "bad-op"
 
@@ -105,5 +109,5 @@ end CaddyModel.C18
 
 namespace CaddyModel.C18
 /-- counter-example lines replayed on the implementation on every run (see Witness.lean) -/
-def witnessLines : List String := ["C18 cost known 20000 4"]   -- Props.cost_linear_all_modes_full_fails, replayed by timing
+def witnessLines : List String := []   -- none: the cost witness is repaired (corpus/C18/cost-regression.txt replays it)
 end CaddyModel.C18
